@@ -839,6 +839,14 @@ pub fn exec<'a>(who: Who, k: u32, op: &'a Op, me: SelfRef<'a>) -> BoxFut<'a, Flo
             Flow::Continue
         });
     }
+    if let Op::Deferred { op: inner, us } = op {
+        // make the call now, await the future only after `us` virtual microseconds
+        let f = exec(who, k, inner, me);
+        return Box::pin(async move {
+            tokio::time::sleep(Duration::from_micros(*us)).await;
+            f.await
+        });
+    }
     if let Op::Unpolled(inner) = op {
         // make the call, never poll the future, drop it
         let f = exec(who, k, inner, me);
@@ -879,7 +887,7 @@ pub fn exec<'a>(who: Who, k: u32, op: &'a Op, me: SelfRef<'a>) -> BoxFut<'a, Flo
             Op::Signal(f) => world::signal(*f),
             Op::BurnBudget => burn_budget().await,
             Op::ConsumeBudget(n) => consume_budget(*n).await,
-            Op::Tell { .. } | Op::TellT { .. } | Op::TellUs { .. } | Op::Ask { .. } | Op::AskT { .. } | Op::AskUs { .. } | Op::AskJoin { .. } | Op::Stop { .. } | Op::Unpolled(_) => unreachable!("handled eagerly above"),
+            Op::Tell { .. } | Op::TellT { .. } | Op::TellUs { .. } | Op::Ask { .. } | Op::AskT { .. } | Op::AskUs { .. } | Op::AskJoin { .. } | Op::Stop { .. } | Op::Unpolled(_) | Op::Deferred { .. } => unreachable!("handled eagerly above"),
             Op::Kill { h } => kill_handle(who, k, *h),
             Op::TellSelf { m, ms } => {
                 let up;
